@@ -320,3 +320,76 @@ def _idx_pat(e):
     if a is not None:
         return (a, False)
     return None
+
+
+# ------------------------------------------------------------------------------------------------ H4
+RULE_H4 = ('H4: a gate recorder records the history exactly: on every call it appends one (key, indices...) entry.  The only other '
+           'admissible mutation is the cancellation idiom (pop the last entry when it equals the new one), and then every key the '
+           'recorder factory is instantiated with must be an involution (G.G proportional to I, by literal evaluation of the tableau '
+           'table) - cancelling two S gates would drop a Z.')
+
+
+def h4(proj, rep):
+    from .typestate import class_functions, MUTATING_METHODS, _self_attr
+    rep.rule('H4', RULE_H4)
+    m = proj.mod(MOD)
+    ci = proj.cls(CLS)
+    ge = GateEval(proj)
+    bd = m.bindings.get('_basic_clifford_dict')
+    tab = {}
+    if bd and bd[0] == 'assign' and isinstance(bd[1], ast.Dict):
+        tab = {k.value: v for k, v in zip(bd[1].keys, bd[1].values) if isinstance(k, ast.Constant)}
+    # keys per factory
+    keys_of = {}
+    for attr, val in ci.attr_assigns.items():
+        if isinstance(val, ast.Call) and val.args and isinstance(val.args[0], ast.Constant):
+            r = resolve_callee(proj, m, val)
+            if r.kind == 'func':
+                keys_of.setdefault(r.qual, []).append(val.args[0].value)
+    n = 0
+    seen = set()
+    for name, fn, selfname, how, mod in class_functions(proj, ci):
+        if not how.startswith('factory') or id(fn) in seen:
+            continue
+        seen.add(id(fn))
+        fq = how.split(' ', 1)[1]
+        appends, others = [], []
+        for c in ast.walk(fn):
+            if isinstance(c, ast.Call) and isinstance(c.func, ast.Attribute) and _self_attr(c.func.value, selfname) == 'gate_index_list':
+                if c.func.attr == 'append':
+                    appends.append(c)
+                elif c.func.attr in MUTATING_METHODS:
+                    others.append(c)
+        n += 1
+        construct = f'{fq}'
+        if not appends:
+            rep.violation('H4', construct, 'recorder never appends to gate_index_list', mod, fn, text=f'{fq} appends')
+            continue
+        if not others:
+            rep.ok('H4', construct, 'recorder only appends', mod, fn, text=f'{fq} appends')
+            continue
+        pops = [c for c in others if c.func.attr == 'pop' and (not c.args or ast.unparse(c.args[0]) == '-1')]
+        if len(pops) != len(others):
+            rep.undecided('H4', construct, f'recorder mutates the history with {[c.func.attr for c in others]}', mod, others[0])
+            continue
+        bad = []
+        for k in keys_of.get(fq, []):
+            if k not in tab:
+                continue
+            try:
+                g = ge.value(m, tab[k])
+            except NotLiteral:
+                bad = None
+                break
+            sq = g @ g
+            ph = sq[0, 0]
+            if abs(abs(ph) - 1) > 1e-9 or np.abs(sq - ph * np.eye(sq.shape[0])).max() > 1e-9:
+                bad.append(k)
+        if bad is None:
+            rep.undecided('H4', construct, 'cancellation idiom with non-literal gate matrices', mod, pops[0])
+        elif bad:
+            rep.violation('H4', construct, f'recorder cancels two identical adjacent gates (pop) but gate(s) {bad} recorded through this factory are '
+                          f'not involutions (G.G is not proportional to I): the history loses an operator', mod, pops[0])
+        else:
+            rep.ok('H4', construct, f'cancellation of identical adjacent gates; all keys {keys_of.get(fq)} are involutions', mod, pops[0])
+    return n
